@@ -114,6 +114,8 @@ def _total_value(g, dv, col):
   text (D0: keys and sort columns are total)."""
   if g.cfg.get("blank_sort_p") and g.rng.random() < g.cfg["blank_sort_p"] and col.pure not in ("Ref", "RefList"):
     return None          # blanks have a defined place in every order (first), several of them tie
+  if g.cfg.get("alt_sort_p") and g.rng.random() < g.cfg["alt_sort_p"] and col.pure in ("Date", "Int", "Numeric"):
+    return g.rng.choice(ALT_TEXT)     # so has alt text (after numbers, before dates and text)
   for _ in range(8):
     v = value_for(g, dv, col, allow_alt=False)
     if v is not None or col.pure in ("ChoiceList", "RefList"):
@@ -311,6 +313,16 @@ def gen_formula(g, dv, t, limit_ref=None, kinds=None):
       if cands:
         st, gb = rng.choice(cands)
         return "%s.lookupOne(%s).count" % (st.tableId, ", ".join("%s=$%s" % (cid, sc.colId) for cid, sc in sorted(gb)))
+    elif kind == "dictval":
+      # containers in an Any cell: a dict (RECORD) whose values are dates, lists, records
+      # (plain data columns only: the text of a record or record set names tables and columns,
+      # which renames change -- see the note on str() over references)
+      cols = [c for c in own if not c.isFormula and not c.formula and c.pure not in ("Ref", "RefList")]
+      if cols:
+        a = rng.choice(cols).colId
+        b = rng.choice(cols).colId
+        return rng.choice(["{'x': $%s, 'l': [$%s, 1], 'd': {'in': $%s}}" % (a, b, a),
+                           "{'v': ($%s,), 'n': None, 'k': {'z': [$%s]}}" % (a, b)])
     elif kind == "swallow":
       # a formula that swallows whatever reading another formula column raises (the engine's own
       # "not computed yet" signal included) and then reads on
